@@ -1,5 +1,5 @@
 (* Basic lemmas about the representation of the DAG model (association lists, adjacency lists). *)
-From Coq Require Import List NArith Bool Lia Permutation.
+From Coq Require Import List NArith Bool Lia Permutation Sorted.
 From PieV Require Import Model.Dag.
 Import ListNotations.
 Open Scope N_scope.
@@ -197,4 +197,16 @@ Lemma removeN_app_single x l : ~ In x l -> removeN x (l ++ [x]) = l.
 Proof.
   intros H. unfold removeN. rewrite filter_app. cbn. rewrite N.eqb_refl. cbn. rewrite app_nil_r.
   fold (removeN x l). apply removeN_notin. exact H.
+Qed.
+
+Lemma ssorted_snoc {A} (R : A -> A -> Prop) l a :
+  StronglySorted R l -> (forall z, In z l -> R z a) -> StronglySorted R (l ++ [a]).
+Proof.
+  induction l as [|b bl IH]; intros Hs Hall; cbn.
+  - constructor; constructor.
+  - inversion Hs as [|? ? Hs' Hb]; subst. constructor.
+    + apply IH; [exact Hs'|]. intros z Hz. apply Hall. right. exact Hz.
+    + apply Forall_forall. intros z Hz. apply in_app_or in Hz. destruct Hz as [Hz|[Hz|[]]].
+      * rewrite Forall_forall in Hb. apply Hb. exact Hz.
+      * subst. apply Hall. left. reflexivity.
 Qed.
